@@ -70,6 +70,13 @@ Theorem C19_code_normalisation :
   existsb (fun s => (0 <? fst (snd s))%Z) pq_code_norm_sites = true.
 Proof. vm_compute. split; reflexivity. Qed.
 
+(* the summary lines snap luminances by rounding to nearest (x1000 nits for the mastering display peak,
+   x100 nits for the L2 targets, 1e-6 for the minimum), never by truncation (regenerated) *)
+Theorem C19_summary_rounding :
+  forallb (fun s => (snd (snd s) =? 0)%Z) pq_snap_sites = true /\
+  forallb (fun s => (3 <=? fst (snd s))%Z) pq_snap_sites = true.
+Proof. vm_compute. split; reflexivity. Qed.
+
 Print Assumptions C19_nits_table_correct.
 Print Assumptions C19_code_table_correct.
 Print Assumptions C19_roundtrip_codes.
